@@ -184,6 +184,7 @@ def execute(sc, ctx):
     if root.data.dtype == np.float32:
         ctx.hit("parent_loaded_float32")
     signal_rate = None
+    sig_level = 1000.0
     for op in sc["pre"]:
         ctx.op("pre:" + op["op"])
         if op["op"] == "noise":
@@ -191,7 +192,9 @@ def execute(sc, ctx):
         elif op["op"] == "box_signal":
             rate = op["drift_px"] * root.df / root.dt
             f0 = root.fmin + op["idx"] * root.fchans * root.df
-            root.add_signal(stg.constant_path(f_start=f0, drift_rate=rate), stg.constant_t_profile(level=1000.0),
+            # well above anything already in the frame (preloaded marker data ramps up with the channel number)
+            sig_level = 1000.0 + 4.0 * float(np.max(np.abs(root.data)))
+            root.add_signal(stg.constant_path(f_start=f0, drift_rate=rate), stg.constant_t_profile(level=sig_level),
                             stg.box_f_profile(width=root.df), stg.constant_bp_profile(level=1))
             signal_rate = (rate, f0)
             root.add_metadata({"drift_rate": rate})
@@ -343,11 +346,11 @@ def execute(sc, ctx):
                 if ok and mode == "own" and signal_rate is not None and parent is root and parent.tchans >= 2:
                     cols = np.argmax(child.data, axis=1)
                     # "onto a single column to within one channel": every row within one channel of the common column
-                    peak_ok = np.all(child.data.max(axis=1) > 500) and np.all(np.abs(cols - int(np.median(cols))) <= 1)
+                    peak_ok = np.all(child.data.max(axis=1) > sig_level / 2) and np.all(np.abs(cols - int(np.median(cols))) <= 1)
                     inband = True
                     f_end = signal_rate[1] + signal_rate[0] * parent.tchans * parent.dt
                     inband = (parent.fmin + 2 * parent.df < min(signal_rate[1], f_end)) and (max(signal_rate[1], f_end) < parent.fmax - 2 * parent.df)
-                    if inband and np.all(child.data.max(axis=1) > 500):
+                    if inband and np.all(child.data.max(axis=1) > sig_level / 2):
                         ctx.hit("dedrift_peak_checked")
                         ctx.check(peak_ok, "dedrift", "C17/dedrift/signal_not_in_one_column", lambda: "peak columns %r" % (cols,))
             elif kind in ("integrate", "spectrum", "timeseries"):
